@@ -4,9 +4,12 @@ The session-machine family (sess_checks.run_family) abstracts a malformed frame 
 sessions.  This module covers what that abstraction hides:
 
 * session kinds: SoupClientSession, SoupServerSession, Fix44Session — each before and after login (before login there are no
-  heartbeat monitors that could rescue a deaf session);
+  heartbeat monitors that could rescue a deaf session) — and ITCH / OUCH / SQF client sessions on top of a logged-in soup session
+  (applications with numbers, variable-length strings, arrays of shorts and of strings, fixed strings: `app_libs`);
 * inbound stream = valid frames + ONE malformed / extreme frame (hostile_gen: every class x packet type; signed / zero /
-  non-canonical / non-numeric BodyLength, maximum-size frames, repeating-group counts, heartbeat-only bursts of > 64 KiB, garbage)
+  non-canonical / non-numeric BodyLength, maximum-size frames, repeating-group counts, heartbeat-only bursts of > 64 KiB, garbage;
+  application payloads: unknown indicator, empty, truncated, trailing bytes, two messages in one packet, string length / array count
+  negative, zero, beyond the payload, maximal)
   + valid frames, under a segmentation (whole, per frame, at the class's own zones — after the length field, before the last byte,
   between `9=` and SOH —, byte-wise, random) with or without reader polls between the segments;
 * the bytes go through `FakeTransport.feed`: a session that pauses reading gets nothing until it resumes, as on a real transport;
@@ -17,7 +20,8 @@ Oracle (implementation only, the statement of C07):
   - not deaf while open: at the deadline the session reports closed, or a probe has been delivered (and the two probes sent after
     the first delivered one are delivered too, in order);  classes whose announced length the scenario cannot satisfy (`wants`
     unknown: garbage) are only held to "an open session still has a live reader task";
-  - no single `deserialize()` call blocks the loop for more than WALL_PER_FRAME seconds of wall clock;
+  - no single `deserialize()` call takes more than WALL_PER_FRAME seconds and no scenario more than CASE_WALL seconds of CPU time (a
+    frame must not block the event loop; the costliest legitimate scenario, 128 KiB of heartbeats, needs about one second);
   - a final `close()` returns normally, the transport is closed exactly once, the close callback ran exactly once, `is_closed()`.
 Correspondence: the session's own reader (an instrumented subclass installed through `reader_factory`) logs every `on_data` /
 `deserialize()` / emission / close signal; Model/Framing.lean (`frame.run`, driver drv_C03) is folded over the observed data / tick
@@ -495,7 +499,8 @@ def oracle(case, res):
     if 'raised' in res:
         return [f'SCENARIO-SETUP: {res["raised"]}']
     if 'hang' in res:
-        return [f'{cls}: {res["hang"]} (longest single deserialize() call: {res["max_wall"]:.2f} s)']
+        return [f'{cls}: {res["hang"]}' + (f' (longest single deserialize() call: {res["max_wall"]:.2f} s)' if res['max_wall'] > 0.1 else
+                                            ' (not inside deserialize(): a task above the reader never gave control back)')]
     if res['max_wall'] > WALL_PER_FRAME:
         out.append(f'{cls}: one deserialize() call blocked the event loop for {res["max_wall"]:.2f} s (CPU time)')
     if res['loop_exceptions']:
